@@ -759,6 +759,9 @@ class WaFamily(Family):
             if rng.chance(1, 3):
                 # the same writer with a thread pool: blocks reach write(2) from the result-handler thread (same call sequence)
                 cfgs += " pool=%d" % rng.pick([0, 1, 2, 4]); stats.bump("wa_pooled_writer")
+            if rng.chance(1, 3):
+                # the writer is handed a descriptor that already stands some bytes into the file (reserved leading bytes)
+                cfgs += " off=%d" % rng.pick([1, 13, 64, 700]); stats.bump("wa_descriptor_at_offset")
             lines = ["wa.file %s script=- %s" % (cfgs, ents)]
             # number of _write_all calls of the fault-free run: 3 per block + 3 (index) + 1 (trailer) — unknown here, so
             # enumerate single faults at the first 3*len+8 call positions (later positions are simply never reached)
